@@ -208,7 +208,7 @@ where
                     tracing::trace!("read frame from stream: {:?}", ret);
                     if buf.len() >= ret {
                         let buf = buf.split_to(ret).freeze();
-                        let ret = Frame::from_buffer(buf).unwrap();
+                        let ret = Frame::from_buffer(buf)?;
                         return Ok(Some(ret));
                     }
                 }
@@ -264,7 +264,7 @@ fn decode_address(mut buf: Bytes) -> IoResult<Option<TargetAddress>> {
     if buf.is_empty() {
         return Ok(None);
     }
-    if buf.len() < 8 {
+    if buf.len() < 2 {
         return Err(IoError::new(ErrorKind::InvalidInput, "bad header"));
     }
     let tag = buf.get_u8();
